@@ -183,6 +183,11 @@ func encPolicyMsg(en *env.Enc, e *env.Env, msg sdk.Msg) bool {
 		en.I(4).Z(bi(m.MaxRowanLiquidityThreshold)).U(m.EpochLength).B(m.IsActive)
 	case *clptypes.MsgModifyLiquidityProtectionRates:
 		en.I(5).Z(bi(m.CurrentRowanLiquidityThreshold))
+	case *clptypes.MsgUpdateSwapFeeParamsRequest:
+		en.I(6).Z(decBig(m.DefaultSwapFeeRate)).Len(len(m.TokenParams))
+		for _, tp := range m.TokenParams {
+			en.Z(decBig(tp.SwapFeeRate))
+		}
 	default:
 		return false
 	}
@@ -428,9 +433,18 @@ func buildPolicyMsg(e *env.Env, rng *chain.Rng, kind int) (string, sdk.Msg, map[
 		m := &clptypes.MsgUpdateSwapFeeParamsRequest{Signer: adm}
 		r := []string{"0", "1", "0.003", "0.999999999999999999", "1.000000000000000001", "-0.001"}
 		m.DefaultSwapFeeRate = *decPtr(r[rng.Intn(len(r))])
-		if rng.Intn(2) == 0 {
-			m.TokenParams = []*clptypes.SwapFeeTokenParams{{Asset: []string{"ceth", "rowan", "nosuch"}[rng.Intn(3)], SwapFeeRate: *decPtr(r[rng.Intn(len(r))])}}
-			f["token_rate"] = fmt.Sprint(m.TokenParams[0].Asset, " ", m.TokenParams[0].SwapFeeRate)
+		if rng.Intn(3) != 0 {
+			// one to three per-token overrides; the out-of-range value may sit at any position while the default is fine
+			var tr []string
+			for _, a := range []string{"ceth", "rowan", "cusdc", "nosuch"}[:1+rng.Intn(3)] {
+				v := r[rng.Intn(len(r))]
+				if rng.Intn(3) == 0 {
+					v = []string{"1.5", "2", "1.000000000000000001"}[rng.Intn(3)]
+				}
+				m.TokenParams = append(m.TokenParams, &clptypes.SwapFeeTokenParams{Asset: a, SwapFeeRate: *decPtr(v)})
+				tr = append(tr, a+" "+v)
+			}
+			f["token_rates"] = fmt.Sprint(tr)
 		}
 		f["default_rate"] = m.DefaultSwapFeeRate.String()
 		return "MsgUpdateSwapFeeParamsRequest", m, f
